@@ -19,13 +19,16 @@ REQUIRED_THEOREMS = ["C13_known_names_true_nothrow", "C13_never_throws", "C13_ex
                      "C13_correction_identity_by_rule", "C13_reversible", "C13_all_off_restores_fresh_state",
                      "C13_reversible_all_off", "C13_reachable_predictions", "C13_each_guard_is_needed", "C13_prediction_restored",
                      "C13_correction_restored", "C13_state_skipped_gaussian_identity", "C13_state_skipped_gpf_identity_partial"]
-RULE = ("command words over {prediction,state,exogenous,correction,all,<bogus>} x {on,off} on assembled filters (GaussianFilter with KF / UKF steps, "
-        "SIS with bootstrap / Gaussian-particle steps; also a bootstrap filter whose exogenous model is given to the DrawParticles constructor), with and without exogenous model. quick: every word of length <= 3 with predict and correct "
-        "after every command on all 8 configurations, every word of length 4 (final flags, answers, one predict and one correct at the end) on all 8 "
-        "configurations, and a random sample of length-4..8 words with full interleaving; thorough: additionally every word of length 5 on all 8 "
-        "configurations, every word of length 6 on the 4 (family, exogenous) combinations, random words of length <= 30 with random interleaving. "
+RULE = ("words over the 12 skip commands {prediction,state,exogenous,correction,all,<bogus>} x {on,off} and the call freeze_measurements(), on assembled filters: "
+        "GaussianFilter with KF, additive-UKF, generic-UKF + SUKF steps; SIS with bootstrap and Gaussian-particle (KF or UKF inside) steps; a bootstrap filter whose "
+        "exogenous model is given to the DrawParticles constructor; each with and without exogenous model; measurement source = a counting stream sensor or the "
+        "library's SimulatedLinearSensor over a SimulatedStateModel; every word starts with one freeze. quick: every word of length <= 3 with predict and correct "
+        "after every symbol, every word of length 4 packed (answers, final flags, one predict and one correct at the end) on all 10 configurations, and 1500 random "
+        "words of length 4..8 with random interleaving; thorough: additionally every word of length 5 on all configurations, every word of length 6 of skip commands "
+        "on the 4 (family, exogenous) combinations, 20000 random words of length <= 30. "
         "beliefs: linear for KF / bootstrap, also Euler-circular and quaternion layouts for UKF, Euler-circular for generic-UKF+SUKF and Gaussian-particle(UKF); "
         "where the code assigns the whole output object (skipped wrapper, KF/UKF predictStep test) half of the steps get an output object of another shape; "
+        "every step is compared bitwise with the input and with never-skipped twins that received the same freeze / predict / correct calls; "
         "non-trivial = a word with at least two commands one of which is 'on'; distinct by (configuration, exogenous, word)")
 TRUSTED_BASE = ["Coq 8.16.1 kernel (coqc); no axioms (Print Assumptions: closed under the global context)",
                 "extraction (ExtrOcamlBasic only) and ocaml/drv_C13.ml, ocaml/caseio.ml",
@@ -48,7 +51,6 @@ KINDS = ["kf", "ukf", "ukfg", "boot", "gpf"]     # ukfg: generic UKFPrediction c
 # model in a member nothing reads (old transcription and refuted witness: C13_Regress.v). The model now says it attaches it.
 PROBE_DRAWPARTICLES_CTOR = True
 DRAWPARTICLES_CTOR_ATTACHES = True
-SIG_DRAWPARTICLES = "C13:exogenous-model-ignored:DrawParticles-two-argument-ctor"
 
 
 def _w(c, name):
@@ -56,8 +58,9 @@ def _w(c, name):
     return list(c.get(name)) if c.has(name) else []
 
 
-def alphabet(bogus="bogus"):
-    return ["%s:%s" % (n, s) for n in NAMES + [bogus] for s in ("on", "off")]
+def alphabet(bogus="bogus", freeze=True):
+    """the 12 skip commands, and the schedulable call freeze_measurements() on the correction step"""
+    return ["%s:%s" % (n, s) for n in NAMES + [bogus] for s in ("on", "off")] + (["freeze"] if freeze else [])
 
 
 LAYOUTS = {   # (dim_linear, dim_circular, use_quaternion)
@@ -77,11 +80,16 @@ def operands(rng, c, kind, allow_quat=True):
     n = lin + circ * (4 if quat else 1)
     nc = lin + circ * (3 if quat else 1)
     m = rng.choice([1, 2])
+    # the measurement source: the harness' counting stream sensor, or the library's SimulatedLinearSensor over a SimulatedStateModel
+    sensor = "stream" if (quat or rng.random() < 0.6) else "sim"
+    if sensor == "sim":
+        m = min(m, n)
+    c.meta["sensor"] = sensor
     F = gen.matrix(rng, n, n) + 0.3 * np.eye(n)
     Q, _ = gen.spd(rng, nc, 10.0, 0.5)
     R, _ = gen.spd(rng, m, 10.0, 0.5)
     c.mat("F", F).mat("Q", Q).mat("H", gen.matrix(rng, m, n)).mat("R", R).mat("y", gen.matrix(rng, m, 1, 2.0))
-    c.mat("noise", gen.matrix(rng, n, 1, 0.7))
+    c.mat("noise", gen.matrix(rng, n, 1, 0.7)).mat("x0", gen.matrix(rng, n, 1, 2.0))
     c.mat("B", gen.matrix(rng, n, n)).mat("c", gen.matrix(rng, n, 1, 4.0))
     c.int("seed", rng.randrange(1, 2 ** 31))
     c.meta["n"] = n
@@ -113,32 +121,35 @@ def step_ops(rng, kind, exo_eff, st, which, quat=0):
 
 def word_case(rng, cid, kind, exo, cmds, interleave):
     """interleave: 'all' = predict and correct after every command; 'random'; 'end'"""
-    c = caseio.Case(cid, kind, {"exo": int(exo), "mode": "word", "len": len(cmds)})
+    c = caseio.Case(cid, kind, {"exo": int(exo), "mode": "word", "len": len(cmds), "freezes": 1 + sum(1 for x in cmds if x == "freeze")})
     operands(rng, c, kind)
     exo_eff = bool(exo) and (kind != "boot2" or DRAWPARTICLES_CTOR_ATTACHES)
     st = (False, False, False)
-    ops = []
+    ops = ["freeze"]                 # every word starts with one freeze (the library's stream sensor has no measurement before)
     if interleave == "random" and rng.random() < 0.5:
         ops += step_ops(rng, kind, exo_eff, st, ["predict", "correct"], c.meta["quat"])
     for x in cmds:
         ops.append(x)
-        name, s_ = x.rsplit(":", 1)
-        st = rule_step(st, name, s_ == "on", exo_eff)
+        if x != "freeze":
+            name, s_ = x.rsplit(":", 1)
+            st = rule_step(st, name, s_ == "on", exo_eff)
         if interleave == "all":
             ops += step_ops(rng, kind, exo_eff, st, ["predict", "correct"], c.meta["quat"])
         elif interleave == "random":
             ops += step_ops(rng, kind, exo_eff, st, rng.choice([[], ["predict"], ["correct"], ["predict", "correct"], ["correct", "predict"]]), c.meta["quat"])
     if interleave != "all":
         ops += step_ops(rng, kind, exo_eff, st, ["predict", "correct"], c.meta["quat"])
+    c.meta["traj"] = 2 + sum(1 for o in ops if o == "freeze")      # length of the simulated trajectory behind the library's sensor
     if ops:
         c.word("ops", ops)
     return c
 
 
-def enum_case(rng, cid, kind, exo, prefix, ext):
+def enum_case(rng, cid, kind, exo, prefix, ext, freeze=True):
     c = caseio.Case(cid, kind, {"exo": int(exo), "mode": "enum", "len": len(prefix) + ext})
     operands(rng, c, kind, allow_quat=False)
-    c.word("alphabet", alphabet())
+    c.meta["traj"] = 3 + len(prefix) + ext
+    c.word("alphabet", alphabet(freeze=freeze))
     if prefix:
         c.word("prefix", prefix)
     c.int("ext", ext)
@@ -190,8 +201,8 @@ def generate(rng, tier):
                 cases.append(enum_case(rng, nid(), k, e, [a], 4))
         for fam in (("kf", "ukf", "ukfg"), ("boot", "gpf")):
             for e in (0, 1):
-                for i, (a, b) in enumerate(itertools.product(A, repeat=2)):
-                    cases.append(enum_case(rng, nid(), fam[i % len(fam)], e, [a, b], 4))
+                for i, (a, b) in enumerate(itertools.product(alphabet(freeze=False), repeat=2)):
+                    cases.append(enum_case(rng, nid(), fam[i % len(fam)], e, [a, b], 4, freeze=False))
     return cases
 
 
@@ -277,73 +288,116 @@ def parse_flags(tok):
     return d
 
 
-def check_word(sig, cfg, exo, cmds, answers, flag_seq, steps):
-    """cmds: list of 'name:on'; answers: list of 'true'/'false'/'throw' per command; flag_seq: None or list of (P,S,E) strings after
-    each command (index 0 = initial); steps: list of (position = number of commands executed before the step, 'predict'|'correct', token).
-    Returns violations."""
+def check_ops(cfg, exo, ops, toks, init_flags=None):
+    """The property clauses along one word of operations. ops: 'name:on|off' | 'freeze' | 'predict[!]' | 'correct[!]';
+    toks: per op the implementation's observation: skip -> ('true'|'false'|'throw', flags dict or None); freeze -> dict with
+    freeze, meas (, n); step -> token.  The expected values come from the last-command rule alone (not from the model)."""
     v = []
     st = (False, False, False)
-    states = [st]
-    for i, cm in enumerate(cmds):
-        name, s = cm.rsplit(":", 1)
-        status = s == "on"
-        canon = name if name in NAMES else "<unknown>"
-        ans = answers[i]
-        if ans == "throw":
-            v.append(("C13:skip-throws:%s:exo=%d:%s" % (cfg, exo, canon), "skip('%s', %s) threw after %s" % (name, s, cmds[:i])))
-        elif ans != expected_answer(name, exo):
-            v.append(("C13:wrong-answer:%s:exo=%d:%s" % (cfg, exo, canon), "skip('%s', %s) returned %s after %s" % (name, s, ans, cmds[:i])))
-        st = rule_step(st, name, status, exo)
-        states.append(st)
-    if flag_seq is not None:
-        for i, fl in enumerate(flag_seq):
-            S, E, C = states[i]
-            P = S and (E or not exo)
-            exp = {"P": "1" if P else "0", "S": "1" if S else "0", "E": ("1" if E else "0") if exo else "-"}
-            if fl is not None and fl != exp:
-                what = "unknown-name-changed-flags" if i > 0 and cmds[i - 1].rsplit(":", 1)[0] not in NAMES else "reported-state-mismatch"
-                v.append(("C13:%s:%s:exo=%d" % (what, cfg, exo), "after %s is_skipping() reports %s, the commands imply %s" % (cmds[:i], fl, exp)))
-                break
-    for pos, kind, tok in steps:
-        S, E, C = states[pos]
+    done = []                       # operations so far, for the messages
+    nfreeze = 0
+    stale = False                   # a freeze was issued while the correction was skipped
+    any_skip = False
+
+    def flags_ok(fl, what):
+        S, E, C = st
         P = S and (E or not exo)
-        if kind.endswith("!"):
-            # generated only where the code assigns the whole output object: must be the input, shape included
-            kind = kind[:-1]
-            if tok != "identity":
-                v.append(("C13:skipped-%s-not-identity:%s:exo=%d:other-shape-output" % ("prediction" if kind == "predict" else "correction", cfg, exo),
-                          "after %s %s() into an output object of another shape returned '%s'" % (cmds[:pos], kind, tok)))
-                continue
-        if tok == "other":
-            v.append(("C13:step-unclassified:%s:exo=%d:%s" % (cfg, exo, kind), "after %s the %s step returned neither its input nor what a never-skipped filter returns" % (cmds[:pos], kind)))
-        if kind == "predict":
-            if P and tok != "identity":
-                v.append(("C13:skipped-prediction-not-identity:%s:exo=%d" % (cfg, exo), "after %s predict() returned '%s'" % (cmds[:pos], tok)))
-            if not S and not (E and exo) and tok != "full":
-                v.append(("C13:not-restored-after-switch-off:%s:exo=%d:predict" % (cfg, exo), "after %s (prediction fully on) predict() behaved as '%s'" % (cmds[:pos], tok)))
+        exp = {"P": "1" if P else "0", "S": "1" if S else "0", "E": ("1" if E else "0") if exo else "-"}
+        got = {k: fl.get(k) for k in ("P", "S", "E")}
+        if got != exp:
+            v.append(("C13:%s:%s:exo=%d" % (what, cfg, exo), "after %s is_skipping() reports %s, the commands imply %s" % (done, got, exp)))
+            return False
+        return True
+    if init_flags is not None:
+        flags_ok(init_flags, "reported-state-mismatch")
+    flags_bad = False
+    for op, tok in zip(ops, toks):
+        if op == "freeze":
+            nfreeze += 1
+            S, E, C = st
+            if C:
+                stale = True
+            if tok.get("freeze") != "true" or tok.get("meas") != "same" or tok.get("n", "-") not in ("-", str(nfreeze)):
+                v.append(("C13:freeze-not-forwarded:%s:%s" % (cfg, "while-skipped" if (S or E or C) else "never-skipped"),
+                          "after %s freeze_measurements() #%d: returned %s, measurement %s as the never-skipped twin's, sensor received %s freeze calls"
+                          % (done, nfreeze, tok.get("freeze"), tok.get("meas"), tok.get("n"))))
+        elif ":" in op:
+            name, s_ = op.rsplit(":", 1)
+            canon = name if name in NAMES else "<unknown>"
+            ans, fl = tok
+            if ans == "throw":
+                v.append(("C13:skip-throws:%s:exo=%d:%s" % (cfg, exo, canon), "skip('%s', %s) threw after %s" % (name, s_, done)))
+            elif ans != expected_answer(name, exo):
+                v.append(("C13:wrong-answer:%s:exo=%d:%s" % (cfg, exo, canon), "skip('%s', %s) returned %s after %s" % (name, s_, ans, done)))
+            st = rule_step(st, name, s_ == "on", exo)
+            any_skip = True
+            done = done + [op]
+            if fl is not None and not flags_bad:
+                flags_bad = not flags_ok(fl, "unknown-name-changed-flags" if canon == "<unknown>" else "reported-state-mismatch")
+            continue
         else:
-            if C and tok != "identity":
-                v.append(("C13:skipped-correction-not-identity:%s:exo=%d" % (cfg, exo), "after %s correct() returned '%s'" % (cmds[:pos], tok)))
-            if not C and tok != "run":
-                v.append(("C13:not-restored-after-switch-off:%s:exo=%d:correct" % (cfg, exo), "after %s (correction on) correct() behaved as '%s'" % (cmds[:pos], tok)))
+            S, E, C = st
+            P = S and (E or not exo)
+            kind = op
+            if kind.endswith("!"):
+                # generated only where the code assigns the whole output object: must be the input, shape included
+                kind = kind[:-1]
+                if tok != "identity":
+                    v.append(("C13:skipped-%s-not-identity:%s:exo=%d:other-shape-output" % ("prediction" if kind == "predict" else "correction", cfg, exo),
+                              "after %s %s() into an output object of another shape returned '%s'" % (done, kind, tok)))
+                    done = done + [op]
+                    continue
+            if tok == "other" and not (kind == "correct" and not C and stale):
+                v.append(("C13:step-unclassified:%s:exo=%d:%s" % (cfg, exo, kind), "after %s the %s step returned neither its input nor what a never-skipped filter returns" % (done, kind)))
+            if kind == "predict":
+                if P and tok != "identity":
+                    v.append(("C13:skipped-prediction-not-identity:%s:exo=%d" % (cfg, exo), "after %s predict() returned '%s'" % (done, tok)))
+                if not S and not (E and exo) and tok != "full":
+                    v.append(("C13:not-restored-after-switch-off:%s:exo=%d:predict" % (cfg, exo), "after %s (prediction fully on) predict() behaved as '%s'" % (done, tok)))
+            else:
+                if C and tok != "identity":
+                    v.append(("C13:skipped-correction-not-identity:%s:exo=%d" % (cfg, exo), "after %s correct() returned '%s'" % (done, tok)))
+                if not C and tok != "run":
+                    if stale:
+                        v.append(("C13:not-restored-after-switch-off:stale-measurement:%s" % cfg,
+                                  "after %s (correction on again; a freeze was issued while it was skipped) correct() does not return what the "
+                                  "never-skipped twin that received the same %d freeze calls returns ('%s')" % (done, nfreeze, tok)))
+                    else:
+                        v.append(("C13:not-restored-after-switch-off:%s:exo=%d:correct" % (cfg, exo), "after %s (correction on) correct() behaved as '%s'" % (done, tok)))
+        done = done + [op]
     return v
 
 
+def word_tokens(ops, tr):
+    toks = []
+    for op, tok in zip(ops, tr):
+        if op == "freeze":
+            toks.append(parse_flags(tok))
+        elif ":" in op:
+            toks.append((tok.split(",")[0][2:], parse_flags(tok.split(",", 1)[1]) if "," in tok else None))
+        else:
+            toks.append(tok)
+    return toks
+
+
 def check_enum(c, tokens, cfg, exo):
-    """The clauses on a packed enumeration. The rule state is carried along the lexicographic order of the words
-    (depth-first over the word tree), so a word costs O(1); a word whose token differs from what the rule
-    determines is re-examined by check_word to name the violated clause."""
+    """The clauses on a packed enumeration (each word: one freeze, the prefix, the extension, one predict, one correct).
+    The rule state is carried along the lexicographic order of the words (depth-first over the word tree), so a word costs
+    O(1); a word whose token differs from what the rule determines is re-examined by check_ops to name the violated clause."""
     A, prefix, ext = c.get("alphabet"), list(_w(c, "prefix")), c.get("ext")
-    parsed = []
-    for x in A:
+
+    def sym(x):
+        if x == "freeze":
+            return ("freeze", False, "z")
         name, s_ = x.rsplit(":", 1)
-        parsed.append((name, s_ == "on", {"true": "t", "false": "f"}[expected_answer(name, exo)]))
-    st, ans = (False, False, False), ""
+        return (name, s_ == "on", {"true": "t", "false": "f"}[expected_answer(name, exo)])
+    parsed = [sym(x) for x in A]
+    st, ans = (False, False, False), "z"
     for x in prefix:
-        name, s_ = x.rsplit(":", 1)
-        st = rule_step(st, name, s_ == "on", exo); ans += {"true": "t", "false": "f"}[expected_answer(name, exo)]
+        name, status, ch = sym(x)
+        st = rule_step(st, name, status, exo); ans += ch
     a = len(A)
-    L = len(prefix) + ext
+    L = 1 + len(prefix) + ext
     if len(tokens) != a ** ext:
         return [("C13:harness-trace-length", "%d tokens for %d words" % (len(tokens), a ** ext))]
     v = []
@@ -366,19 +420,25 @@ def check_enum(c, tokens, cfg, exo):
                 ok = pt == "full"
         if not ok and len(v) < 20:
             parts = tok.split(",")
-            answers = [{"t": "true", "f": "false", "x": "throw"}.get(ch, "?") for ch in parts[0]]
-            w = words(i)
-            if len(answers) != L or len(parts) != 6:
+            w = ["freeze"] + words(i)
+            if len(parts[0]) != L or len(parts) != 6:
                 v.append(("C13:harness-trace-length", "word %s: %s" % (w, tok)))
             else:
-                v.extend(check_word(None, cfg, exo, w, answers, [None] * L + [parse_flags(",".join(parts[1:4]))],
-                                    [(L, "predict", parts[4]), (L, "correct", parts[5])]))
+                toks = []
+                for op, ch in zip(w, parts[0]):
+                    if op == "freeze":
+                        toks.append({"freeze": "false" if ch == "n" else "true", "meas": "same" if ch == "z" else "differs"})
+                    else:
+                        toks.append(({"t": "true", "f": "false", "x": "throw"}.get(ch, "?"), None))
+                # only the final flags are reported in the packed form
+                toks[-1] = (toks[-1][0], parse_flags(",".join(parts[1:4]))) if w[-1] != "freeze" else toks[-1]
+                v.extend(check_ops(cfg, exo, w + ["predict", "correct"], toks + [parts[4], parts[5]]))
 
     def rec(depth, st, ans):
         if depth == ext:
             leaf(st, ans); return
         for (name, status, ch) in parsed:
-            rec(depth + 1, rule_step(st, name, status, exo), ans + ch)
+            rec(depth + 1, st if name == "freeze" else rule_step(st, name, status, exo), ans + ch)
     rec(0, st, ans)
     return v
 
@@ -389,32 +449,13 @@ def oracle(c, impl, model):
     v = []
     if impl.get("inputs_unchanged") != 1:
         v.append(("C13:input-modified:%s" % cfg, "a belief passed to predict()/correct() was modified"))
+    eff = exo if (cfg != "boot2" or str(c.meta.get("attach", "0")) == "1") else 0
     if c.meta["mode"] == "word":
         ops, tr = list(_w(c, "ops")), impl.get("trace")
         if tr is None or len(tr) != len(ops) + 1:
             return v + [("C13:harness-trace-length", "trace has %s tokens for %d operations" % (None if tr is None else len(tr), len(ops)))]
-        cmds, answers, flag_seq, steps = [], [], [parse_flags(tr[0])], []
-        for op, tok in zip(ops, tr[1:]):
-            if ":" in op:
-                cmds.append(op)
-                answers.append(tok.split(",")[0][2:])
-                flag_seq.append(parse_flags(tok.split(",", 1)[1]))
-            else:
-                steps.append((len(cmds), op, tok))     # op may end with "!": output object of another shape
-        if cfg == "boot2":
-            # the code as it is: no exogenous model as far as the skip machinery is concerned -- must be clean in that reading;
-            # the property's reading (an exogenous model was supplied): every failing clause is the one finding
-            attached = str(c.meta.get("attach", "0")) == "1"
-            v += check_word(None, cfg, exo if attached else 0, cmds, answers, flag_seq, steps)
-            if exo and not attached:
-                w = [x for x in check_word(None, cfg, 1, cmds, answers, None, steps) if "wrong-answer" in x[0]]
-                if w:
-                    v.append((SIG_DRAWPARTICLES, "bootstrap filter built with DrawParticles(state_model, exogenous_model): %s; the model is "
-                              "stored in a member nothing reads, so it is also ignored by predict()" % w[0][1]))
-        else:
-            v += check_word(None, cfg, exo, cmds, answers, flag_seq, steps)
+        v += check_ops(cfg, eff, ops, word_tokens(ops, tr[1:]), parse_flags(tr[0]))
     else:
-        eff = exo if (cfg != "boot2" or str(c.meta.get("attach", "0")) == "1") else 0
         v += check_enum(c, impl.get("enum") or [], cfg, eff)
     # one report per signature
     seen, out = set(), []
